@@ -288,9 +288,12 @@ def rnd(rng, lo, hi):
     return round(rng.uniform(lo, hi), 3)
 
 
-def gen_config(rng, cls):
-    """a configuration at scale 1: lengths are O(1) numbers"""
+def gen_config(rng, cls, aligned=False):
+    """a configuration at scale 1: lengths are O(1) numbers; aligned: no rotation, dyadic position, so that
+    observers given with a coordinate exactly 0 / exactly in a symmetry plane stay there in the local frame"""
     pose = {"position": [rnd(rng, -1, 1) for _ in range(3)], "rotvec": [rnd(rng, -2, 2) for _ in range(3)]}
+    if aligned:
+        pose = {"position": [rng.randint(-8, 8) / 8 for _ in range(3)], "rotvec": [0.0, 0.0, 0.0]}
     pol = [rnd(rng, -1, 1) for _ in range(3)]
     c = {"cls": cls, "pose": pose}
     if cls == "Cuboid":
@@ -413,6 +416,8 @@ def local_observers(rng, c, n):
     elif cls == "Circle":
         r = c["dim"] / 2
         pts += [("axis", [0, 0, 0.4]), ("axis", [0, 0, -3.0]), ("center", [0, 0, 0])]
+        pts += [("in-plane", [0.25 * r, 0, 0]), ("in-plane", [-0.3 * r, 0.6 * r, 0]), ("in-plane", [1.5 * r, 0.25 * r, 0]),
+                ("in-plane", [0, -3.0 * r, 0])]
         for o in off[:4]:
             pts.append(("near-wire", [r * (1 + o), 0, 0]))
             pts.append(("near-wire", [r * 0.6, r * 0.8, o]))
@@ -461,6 +466,13 @@ def triangle_ind_flips(verts, p, s):
     return bool(np.any(dec(1.0) != dec(s)))
 
 
+ACTIVE_IDS = None     # ids that fail the dimension check on the current tree (None: not known, assume all)
+
+
+def active(prefix):
+    return ACTIVE_IDS is None or any(i.startswith(prefix) for i in ACTIVE_IDS)
+
+
 def diagnose(c, p, s, clause, region="generic"):
     """the trigger part of the signature: which tolerance of which function decides differently at scale s
     (evaluated on the failing input, in the local frame of the source); class:region when none explains it"""
@@ -470,13 +482,14 @@ def diagnose(c, p, s, clause, region="generic"):
     try:
         if clause == "face-orientation":
             ext = float(np.ptp(np.array(c["verts"]), axis=0).max()) * s
-            if ext < 1e-3 or ext > 10:      # the 1e-5 offset of the check point is not small / not resolvable
+            if (ext < 1e-3 or ext > 10) and (active("trimesh_facet_inwards>") or active("trimesh_inside>")
+                                             or active("trimesh_lines_end>")):      # the 1e-5 offset of the check point is not small / not resolvable
                 return clause, "is_facet_inwards:eps=1e-5"
             return clause, f"TriangularMesh:{c['kind']}:{size}"
         if cls in ("Triangle", "Tetrahedron", "TriangularMesh") and clause == "scale-law":
             V = np.array(c["verts"])
             faces = c.get("faces") or ([[0, 1, 2]] if cls == "Triangle" else TETRA_F)
-            if any(triangle_ind_flips(V[list(f)], p, s) for f in faces):
+            if active("triangle>") and any(triangle_ind_flips(V[list(f)], p, s) for f in faces):
                 return clause, "triangle_Bfield:ind>1e-12"
         if cls == "TriangularMesh":
             V = np.array(c["verts"], dtype=float)
@@ -648,7 +661,7 @@ def report(ctx, c, obs, fails):
 def search(ctx, n_cfg, n_obs, scales, excitations):
     for cls in CLASSES:
         for t in range(n_cfg):
-            c = gen_config(ctx.rng, cls)
+            c = gen_config(ctx.rng, cls, aligned=(t % 3 == 0))
             obs = local_observers(ctx.rng, c, n_obs)
             fails = check_config(ctx, c, obs, scales, excitations)
             ctx.case(json.dumps(c, sort_keys=True), True,
@@ -684,10 +697,14 @@ def run(ctx):
     if active is not None:
         new_ids = [i for i in active if i not in table]
         stale = [i for i in table if i not in active]
+        global ACTIVE_IDS
+        ACTIVE_IDS = list(active)
         ctx.extra["active_exclusions"] = active
         ctx.extra["exclusion_findings"] = sorted({finding_of(i) or "?" for i in active})
-        if stale:
-            ctx.notes.append(f"exclusions no longer needed (comparison became homogeneous or disappeared): {stale}")
+        for i in stale:
+            ctx.add_broken("broken-proof", "stale exclusion (DimProofs.exclusions_fail): " + i,
+                           "the id no longer fails the dimension check (comparison became homogeneous, changed its "
+                           "source text or disappeared): the exclusion table must be tight")
         ctx.obligations += len(active) + 0
         ctx.discharged += len([i for i in active if i in table])
         for i in new_ids:
